@@ -20,7 +20,7 @@ func init() {
 		Rule: "2-40 callers on one Workers with count sequences constant / increasing / decreasing-while-queued / alternating 1<->N / random, functions that return at once, sleep, or block on a gate (so the queue is provably non-empty when the target shrinks), Call and Wrap, concurrent Wait calls, seeded delays at workers.* hook sites; " +
 			"oracle: each function runs exactly once and its caller gets exactly its (result, error); running <= largest count requested so far (published before Call, read inside the function after incrementing running); every Call returns within the bound; " +
 			"a Wait never spans a function that ran for its whole duration; VerifState invariant queued>0 => count>0 sampled continuously; count=queued=0 and Count()==0 after the final Wait. " +
-			"rejected-call: documented-to-panic calls (count<=0, nil function; Call and Wrap) recovered on a pool with executing and queued functions: no effect on the others. non-trivial = at least two functions were running at once or the queue was non-empty when a smaller count arrived; distinct = distinct (mode, callers, max parallelism, shrink events) signatures",
+			"shared-wrapper: ONE function wrapped once with Wrap and invoked concurrently from several goroutines; every execution returns a fresh token: each invocation gets a token nobody else got, from an execution that began after the invocation was made and ended before it returned. rejected-call: documented-to-panic calls (count<=0, nil function; Call and Wrap) recovered on a pool with executing and queued functions: no effect on the others. non-trivial = at least two functions were running at once or the queue was non-empty when a smaller count arrived; distinct = distinct (mode, callers, max parallelism, shrink events) signatures",
 		Assumptions: []string{
 			"'eventually executed' is restated as 'every Call returns within 10000 heartbeats once the gates are open'",
 		},
@@ -30,6 +30,7 @@ func init() {
 			{Name: "sustained-arrivals", N: core.TierN(12, 120), Batch: 4, Run: c14Sustained},
 			{Name: "micro-churn", N: core.TierN(64, 2560), Batch: 4, Run: c14Churn},
 			{Name: "rejected-call", N: core.TierN(60, 2400), Batch: 20, Run: c14Rejected},
+			{Name: "shared-wrapper", N: core.TierN(40, 1600), Batch: 10, Run: c14SharedWrapper},
 		},
 	})
 }
@@ -575,4 +576,84 @@ func c14Rejected(c *core.Ctx) {
 	c.Op("rejected", rejected)
 	c.Nontrivial()
 	c.Sig("rejected", n, before, after, rejected)
+}
+
+// c14SharedWrapper: a wrapper made once by Wrap is an ordinary function value: it may be invoked from several
+// goroutines at once. Each invocation is a Call of its own: it returns the result of exactly one execution, which
+// began after the invocation was made and had ended when it returned, and no two invocations share an execution.
+func c14SharedWrapper(c *core.Ctx) {
+	var w bigbuff.Workers
+	n := 1 + c.Rng.IntN(4)
+	g := 2 + c.Rng.IntN(5)
+	per := 3 + c.Rng.IntN(10)
+	total := g * per
+	var next atomic.Int64
+	starts := make([]atomic.Int64, total+1)
+	ends := make([]atomic.Int64, total+1)
+	durs := make([]int, total+1)
+	for i := range durs {
+		durs[i] = c.Rng.IntN(300)
+	}
+	wrapped := w.Wrap(n, func() (interface{}, error) {
+		id := int(next.Add(1))
+		if id > total {
+			return id, nil
+		}
+		starts[id].Store(core.Now())
+		time.Sleep(time.Duration(durs[id]) * time.Microsecond) // completions out of order
+		ends[id].Store(core.Now())
+		return id, nil
+	})
+	type inv struct {
+		call, ret int64
+		got       int
+		err       error
+	}
+	invs := make([][]inv, g)
+	var wg sync.WaitGroup
+	for i := 0; i < g; i++ {
+		i := i
+		wg.Add(1)
+		go func() {
+			defer wg.Done()
+			for j := 0; j < per; j++ {
+				var x inv
+				x.call = core.Now()
+				v, err := wrapped()
+				x.ret = core.Now()
+				x.got, _ = v.(int)
+				x.err = err
+				invs[i] = append(invs[i], x)
+			}
+		}()
+	}
+	desc := fmt.Sprintf("one Wrap(%d, f) wrapper invoked %d times each by %d goroutines", n, per, g)
+	if !core.AwaitDone(core.Go(wg.Wait), 20000) {
+		c.Violate("call-starved", "invocations of a shared wrapper did not all return (%s); %s", c14State(&w), desc)
+		c.SetDump(core.DumpAll())
+		return
+	}
+	seen := map[int]bool{}
+	for i := range invs {
+		for _, x := range invs[i] {
+			switch {
+			case x.err != nil || x.got < 1 || x.got > total:
+				c.Violate("wrong-result", "an invocation returned (%d, %v), which no execution produced; %s", x.got, x.err, desc)
+			case seen[x.got]:
+				c.Violate("result-shared", "two invocations returned the result of the same execution (#%d); %s", x.got, desc)
+			case starts[x.got].Load() < x.call:
+				c.Violate("foreign-result", "an invocation made at stamp %d returned the result of execution #%d, which had begun before (stamp %d); %s", x.call, x.got, starts[x.got].Load(), desc)
+			case ends[x.got].Load() == 0 || ends[x.got].Load() > x.ret:
+				c.Violate("foreign-result", "an invocation returned (stamp %d) the result of execution #%d before that execution had ended (stamp %d): it is somebody else's; %s", x.ret, x.got, ends[x.got].Load(), desc)
+			}
+			seen[x.got] = true
+		}
+	}
+	if int(next.Load()) != total {
+		c.Violate("execution-count", "%d invocations, %d executions; %s", total, next.Load(), desc)
+	}
+	w.Wait()
+	c.Op("call", total)
+	c.Nontrivial()
+	c.Sig("shared-wrapper", n, g, per)
 }
